@@ -33,6 +33,9 @@ structure RibSt where
   diverged : Bool := false
   /-- every operation submitted so far, by id (latest wins) -/
   ops : Map Nat Op := []
+  /-- the latest ADD / REPLACE submitted under each id (what a held id stands for: a DELETE is
+  never held, so a DELETE that reuses the id of a held operation does not replace it here) -/
+  adds : Map Nat Op := []
   /-- fold of the implementation's own acknowledgements (C01 monitor) -/
   spec : Map EKey Payload := []
   implEnts : Map EKey Payload := []
@@ -121,7 +124,7 @@ def failedTrace (st : RibSt) (oks fails : List Nat) : RibSt :=
 def handleAdd (st : RibSt) (op : Op) (oks fails : List Nat) (fatal : Bool) : RibSt :=
   let st := { st with entsFresh := false }
   let st := failedTrace st oks fails
-  let st := { st with ops := st.ops.insert op.id op }
+  let st := { st with ops := st.ops.insert op.id op, adds := st.adds.insert op.id op }
   let st := st.covr ("add." ++ tryName (st.model.classify op))
   let st := ackFold st oks
   if st.diverged then st else
@@ -273,13 +276,13 @@ def handleObsPend (st : RibSt) (ids : List Nat) : RibSt :=
     | none => st
   -- C12 monitor: an operation that can never be valid must not be held
   let st := ids.foldl (fun st id =>
-    match st.ops.get? id with
+    match st.adds.get? id with
     | some op => if structBad op || (op.ty != .delete && unknownGrpNI st op) then st.monfail "c12" s!"malformed operation {id} is held instead of being answered FAILED" else st
     | none => st) st
   -- C02 monitor: no held operation is resolvable (or failing) in the implementation's own state
   let implRib : Rib := { st.model with ents := st.implEnts, pend := [] }
   let st := ids.foldl (fun st id =>
-    match st.ops.get? id with
+    match st.adds.get? id with
     | none => if st.blind then st else st.monfail "c02" s!"held id {id} was never submitted"
     | some op =>
       match implRib.classify op with
